@@ -107,7 +107,42 @@ def MemoOK (memo : List ((String × Nat) × String)) : Prop :=
 /-- every object behind a live handle passes `type_of`'s checks of this configuration (its header was written by
     `header_init` of the same build) -/
 def HdrOK (cfg : Cfg) (s : St) : Prop :=
-  ∀ p ∈ s.live, ∀ o, findObj s.heap p.2 = some o → typeOf cfg o = .ok o.hdr.type
+  ∀ p ∈ s.live, ∀ o, findObj s.heap p.2 = some o → o.hdr = headerInit cfg o.hdr.type heapClass
+
+/-- a header written by `header_init` of this build passes `type_of`'s checks of this build -/
+theorem typeOf_of_hdr {cfg : Cfg} {o : Obj} {c : AllocClass} (h : o.hdr = headerInit cfg o.hdr.type c) :
+    typeOf cfg o = .ok o.hdr.type := by
+  have hm := congrArg Hdr.magic h
+  simp only [headerInit] at hm
+  unfold typeOf
+  cases hmac : macroOn cfg "CELLO_MAGIC_CHECK"
+  · simp
+  · simp only [hmac, if_true] at hm ⊢
+    simp [hm]
+
+/-- … and holds the class `alloc_by` stamps, in the field that exists only under CELLO_ALLOC_CHECK -/
+theorem siteClass_self_of_hdr {cfg : Cfg} {o : Obj} (h : o.hdr = headerInit cfg o.hdr.type heapClass) :
+    siteClass o .self = heapClass := by
+  have ha := congrArg Hdr.alloc h
+  simp only [headerInit] at ha
+  unfold siteClass
+  rw [ha]
+  cases macroOn cfg "CELLO_ALLOC_CHECK" <;> rfl
+
+theorem sitesFire_congr {o₁ o₂ : Obj} (h : siteClass o₁ .self = siteClass o₂ .self) :
+    ∀ (l : List (String × Where)), sitesFire o₁ l = sitesFire o₂ l
+  | [] => rfl
+  | (fn, w) :: rest => by
+    have hw : siteClass o₁ w = siteClass o₂ w := by
+      cases w with
+      | self => exact h
+      | elem f k => rfl
+    simp only [sitesFire, hw, sitesFire_congr h rest]
+
+/-- the guards of a call see the same classes in every build: both headers were written by the `header_init` of their build -/
+theorem sitesFire_of_hdr {c₁ c₂ : Cfg} {o₁ o₂ : Obj} (h₁ : o₁.hdr = headerInit c₁ o₁.hdr.type heapClass)
+    (h₂ : o₂.hdr = headerInit c₂ o₂.hdr.type heapClass) (l : List (String × Where)) : sitesFire o₁ l = sitesFire o₂ l :=
+  sitesFire_congr (by rw [siteClass_self_of_hdr h₁, siteClass_self_of_hdr h₂]) l
 
 def WF (cfg : Cfg) (s : St) : Prop := MemoOK s.memo ∧ HdrOK cfg s
 
@@ -272,7 +307,7 @@ theorem dispatchGen_sim (req : Bool) (cfg : Cfg) {s₁ s₂ s₁' : St} {h : Nat
       have := congrArg (fun q => q.2.1) hproj
       exact this.symm
     have hl₂ : s₂.live.lookup h = some i := by rw [← he.2.1]; exact hl
-    have ht₂ := hw₂.2 (h, i) (he.2.1 ▸ hmem) o₂ hf₂
+    have ht₂ := typeOf_of_hdr (hw₂.2 (h, i) (he.2.1 ▸ hmem) o₂ hf₂)
     obtain ⟨s₂', hd₂, hsb₂, hm₂'⟩ := dispatchGen_intro (req := req) (cls := cls) hw₂.1 hl₂ hf₂ ht₂ (by rw [hty]; exact hs)
     exact ⟨s₂', o₂, hd₂, hproj, hsb, hsb₂, hm₁', hm₂', hid ▸ hmem, hid ▸ hf, hid ▸ hf₂⟩
 
@@ -327,7 +362,6 @@ theorem hdrOK_setBody {cfg : Cfg} {s : St} (i : Nat) (b : Body) (hh : HdrOK cfg 
     have ho' : o = (if o'.id == i then ({ o' with body := b } : Obj) else o') := (Option.some.inj ho).symm
     have hhdr : o.hdr = o'.hdr := by rw [ho']; split <;> rfl
     have := hh p hp o' hf
-    unfold typeOf at this ⊢
     rw [hhdr]; exact this
 
 theorem collect_find (s : St) : ∀ p ∈ s.live, findObj (collect s).heap p.2 = findObj s.heap p.2 := by
@@ -335,9 +369,10 @@ theorem collect_find (s : St) : ∀ p ∈ s.live, findObj (collect s).heap p.2 =
   simp only [collect]
   rw [findObj_filter]
   intro o ho
-  simp only [List.contains_eq_mem, List.mem_map, Bool.or_eq_true, Bool.not_eq_true', decide_eq_false_iff_not,
+  simp only [List.contains_eq_mem, List.mem_append, List.mem_map, Bool.or_eq_true, Bool.not_eq_true', decide_eq_false_iff_not,
     decide_eq_true_eq]
   right
+  left
   exact ⟨p, hp, ho.symm⟩
 
 theorem collect_equiv (s : St) : Equiv s (collect s) :=
@@ -371,6 +406,29 @@ theorem memo_collect (s : St) : (collect s).memo = s.memo := rfl
 theorem memo_gcSet (s : St) (i : Nat) : (gcSet s i).memo = s.memo := by
   unfold gcSet; simp only; split <;> rfl
 
+/-! ### lookups on embedded elements, guards over the allocation class -/
+
+/-- the lookups on embedded elements come out the same in every configuration (the cache is a memo), and touch only the cache -/
+theorem innerAll_spec (cfg : Cfg) : ∀ (l : List (String × String)) (s : St), MemoOK s.memo →
+    (innerAll cfg s l).2 = l.any (fun p => (scan p.1 p.2).isNone) ∧ SameBut s (innerAll cfg s l).1 ∧
+      MemoOK (innerAll cfg s l).1.memo
+  | [], s, hm => ⟨rfl, SameBut.refl _, hm⟩
+  | (ty, cls) :: rest, s, hm => by
+    have hspec := typeInstance_spec cfg s.memo ty cls hm
+    simp only [innerAll, List.any_cons]
+    rcases hr : (typeInstance cfg s.memo ty cls).2 with _ | inst
+    · rw [← hspec.1, hr]
+      exact ⟨rfl, ⟨rfl, rfl, rfl, rfl, rfl⟩, hspec.2⟩
+    · simp only
+      have ih := innerAll_spec cfg rest { s with memo := (typeInstance cfg s.memo ty cls).1 } hspec.2
+      rw [← hspec.1, hr]
+      refine ⟨by simpa using ih.1, ?_, ih.2.2⟩
+      exact SameBut.trans (s := s) (t := { s with memo := (typeInstance cfg s.memo ty cls).1 }) ⟨rfl, rfl, rfl, rfl, rfl⟩ ih.2.1
+
+theorem siteClass_self_headerInit (cfg : Cfg) (i : Nat) (ty : String) (b : Body) :
+    siteClass { id := i, hdr := headerInit cfg ty heapClass, body := b } .self = heapClass :=
+  siteClass_self_of_hdr (cfg := cfg) (o := { id := i, hdr := headerInit cfg ty heapClass, body := b }) rfl
+
 /-! ### one step -/
 
 theorem typeOf_headerInit (cfg : Cfg) (i : Nat) (ty : String) (c : AllocClass) (b : Body) :
@@ -390,9 +448,11 @@ theorem runCall_sim (cfg : Cfg) (c : Call) {s₁ s₂ : St} {out : Out}
   simp only [dispatch] at h ⊢
   rcases hdis : dispatchGen true Cfg.default s₁ c.self c.cls with ⟨sA, (o₁ | e | _)⟩
   · rw [hdis] at h; simp only at h ⊢
-    obtain ⟨sB, o₂, hd₂, hproj, hsb₁, hsb₂, hmA, hmB, _, _, _⟩ := dispatchGen_sim true cfg he hw₁.1 hw₂ hdis
+    obtain ⟨sB, o₂, hd₂, hproj, hsb₁, hsb₂, hmA, hmB, hlive, hf₁, hf₂⟩ := dispatchGen_sim true cfg he hw₁.1 hw₂ hdis
     rw [hd₂]; simp only
     have heA : Equiv sA sB := equiv_of_sameBut he hsb₁ hsb₂
+    have hh₁ := hw₁.2 _ hlive o₁ hf₁
+    have hh₂ := hw₂.2 _ (he.2.1 ▸ hlive) o₂ hf₂
     rcases hall : dispatchAll Cfg.default sA c.uses with ⟨sA', (u | e | _)⟩
     · rw [hall] at h; simp only at h ⊢
       obtain ⟨sB', hall₂, hs1, hs2, hmA', hmB'⟩ := dispatchAll_sim cfg c.uses heA hmA ⟨hmB, hsb₂.hdrOK hw₂.2⟩ hall
@@ -404,24 +464,73 @@ theorem runCall_sim (cfg : Cfg) (c : Call) {s₁ s₂ : St} {out : Out}
       rw [hbody, hid]
       rcases hg : c.guard o₁.body with _ | e
       · rw [hg] at h; simp only at h ⊢
-        cases hu : c.undef o₁.body
-        · rw [hu] at h; simp only [Bool.false_eq_true, if_false] at h ⊢
-          rcases hh : c.hard o₁.body with _ | e
-          · rw [hh] at h; simp only at h ⊢
-            refine ⟨h, equiv_setBody _ _ heA', ?_, hdrOK_setBody _ _ hhB'⟩
-            exact hmB'
-          · rw [hh] at h; cases h
-        · rw [hu] at h; simp only [if_true] at h; cases h
+        -- lookups on embedded elements: the same answer in both builds, only the caches move
+        have hiA := innerAll_spec Cfg.default (c.inner o₁.body) sA' hmA'
+        have hiB := innerAll_spec cfg (c.inner o₁.body) sB' hmB'
+        rcases hinA : innerAll Cfg.default sA' (c.inner o₁.body) with ⟨sA3, fA⟩
+        rcases hinB : innerAll cfg sB' (c.inner o₁.body) with ⟨sB3, fB⟩
+        rw [hinA] at hiA h; rw [hinB] at hiB
+        simp only at hiA hiB h ⊢
+        have hf : fB = fA := by rw [hiA.1, hiB.1]
+        subst hf
+        have heA3 : Equiv sA3 sB3 := equiv_of_sameBut heA' hiA.2.1 hiB.2.1
+        have hhB3 : HdrOK cfg sB3 := hiB.2.1.hdrOK hhB'
+        cases fB
+        · simp only at h ⊢
+          -- the guards over the allocation class read the same class in both headers
+          rw [← sitesFire_of_hdr hh₁ hh₂ (c.sites o₁.body)]
+          rcases hsf : sitesFire o₁ (c.sites o₁.body) with _ | e
+          · rw [hsf] at h; simp only at h ⊢
+            cases hu : c.undef o₁.body
+            · rw [hu] at h; simp only [Bool.false_eq_true, if_false] at h ⊢
+              rcases hh : c.hard o₁.body with _ | e
+              · rw [hh] at h; simp only at h ⊢
+                exact ⟨h, equiv_setBody _ _ heA3, hiB.2.2, hdrOK_setBody _ _ hhB3⟩
+              · rw [hh] at h; cases h
+            · rw [hu] at h; simp only [if_true] at h; cases h
+          · rw [hsf] at h; simp only [refuse, Cfg.default, if_true] at h; cases h
+        · simp only [refuse, Cfg.default, if_true] at h; cases h
       · rw [hg] at h; simp only [refuse, Cfg.default, if_true] at h; cases h
     · rw [hall] at h; simp at h
     · rw [hall] at h; simp at h
   · rw [hdis] at h; simp at h
   · rw [hdis] at h; simp at h
 
-theorem runAlloc_sim (cfg : Cfg) (d : Nat) (ty : String) (b : Body) (uses : List (Nat × String)) {s₁ s₂ : St} {out : Out}
+theorem register_equiv (cfg : Cfg) (mode : AMode) (s : St) (i : Nat) : Equiv s (register cfg mode s i) := by
+  unfold register
+  cases cfg.gc
+  · exact Equiv.refl s
+  · simp only [if_true]
+    cases mode
+    · exact gcSet_equiv s i
+    · exact Equiv.refl s
+    · exact (show Equiv s { s with roots := i :: s.roots } from ⟨rfl, rfl, fun _ _ => rfl⟩).trans (gcSet_equiv _ i)
+
+theorem memo_register (cfg : Cfg) (mode : AMode) (s : St) (i : Nat) : (register cfg mode s i).memo = s.memo := by
+  unfold register
+  cases cfg.gc
+  · rfl
+  · simp only [if_true]
+    cases mode
+    · exact memo_gcSet s i
+    · rfl
+    · exact memo_gcSet _ i
+
+theorem hdrOK_register {cfg : Cfg} (c : Cfg) (mode : AMode) {s : St} (i : Nat) (hh : HdrOK cfg s) :
+    HdrOK cfg (register c mode s i) := by
+  unfold register
+  cases c.gc
+  · exact hh
+  · simp only [if_true]
+    cases mode
+    · exact hdrOK_gcSet i hh
+    · exact hh
+    · exact hdrOK_gcSet (s := { s with roots := i :: s.roots }) i hh
+
+theorem runAlloc_sim (cfg : Cfg) (d : Nat) (ty : String) (b : Body) (uses : List (Nat × String)) (mode : AMode) {s₁ s₂ : St} {out : Out}
     (he : Equiv s₁ s₂) (hw₁ : WF Cfg.default s₁) (hw₂ : WF cfg s₂)
-    (h : (runAlloc Cfg.default d ty b uses s₁).2 = .ok out) :
-    SimGoal cfg (runAlloc Cfg.default d ty b uses s₁) (runAlloc cfg d ty b uses s₂) out := by
+    (h : (runAlloc Cfg.default d ty b uses mode s₁).2 = .ok out) :
+    SimGoal cfg (runAlloc Cfg.default d ty b uses mode s₁) (runAlloc cfg d ty b uses mode s₂) out := by
   unfold runAlloc at h ⊢
   rcases hall : dispatchAll Cfg.default s₁ uses with ⟨sA, (u | e | _)⟩
   · rw [hall] at h; simp only at h ⊢
@@ -430,61 +539,59 @@ theorem runAlloc_sim (cfg : Cfg) (d : Nat) (ty : String) (b : Body) (uses : List
     have heA : Equiv sA sB := equiv_of_sameBut he hs1 hs2
     have hhB : HdrOK cfg sB := hs2.hdrOK hw₂.2
     -- the states right after `alloc_by` and before registration
-    let oA : Obj := { id := sA.next, hdr := headerInit Cfg.default ty .heap, body := b }
-    let oB : Obj := { id := sB.next, hdr := headerInit cfg ty .heap, body := b }
-    let tA : St := { sA with next := sA.next + 1, heap := oA :: sA.heap, live := (d, oA.id) :: sA.live }
-    let tB : St := { sB with next := sB.next + 1, heap := oB :: sB.heap, live := (d, oB.id) :: sB.live }
-    have het : Equiv tA tB := by
-      refine ⟨by simp [tA, tB, heA.1], by simp [tA, tB, oA, oB, heA.1, heA.2.1], ?_⟩
-      intro p hp
-      simp only [tA, tB, findObj_cons, oA, oB]
-      rw [← heA.1]
-      by_cases hpn : sA.next = p.2
-      · simp [hpn, Obj.proj, headerInit]
-      · have hb : (sA.next == p.2) = false := by simpa using hpn
-        simp only [hb, Bool.false_eq_true, if_false]
-        rcases List.mem_cons.mp hp with hp | hp
-        · exfalso; apply hpn; rw [hp]
-        · exact heA.2.2 p hp
-    have hht : HdrOK cfg tB := by
-      intro p hp o ho
-      simp only [tB, findObj_cons, oB] at ho
-      by_cases hpn : sB.next = p.2
-      · simp only [hpn, beq_self_eq_true, if_true] at ho
-        have := Option.some.inj ho
-        rw [← this]
-        exact typeOf_headerInit cfg _ ty .heap b
-      · have hb : (sB.next == p.2) = false := by simpa using hpn
-        simp only [hb, Bool.false_eq_true, if_false] at ho
-        rcases List.mem_cons.mp hp with hp | hp
-        · exfalso; apply hpn; rw [hp]
-        · exact hhB p hp o ho
-    have hout : out = .unit := by
-      have := Outcome.ok.inj h
-      exact this.symm
-    subst hout
-    refine ⟨rfl, ?_, ?_, ?_⟩
-    · -- default registers (and may sweep); cfg may or may not
-      have h1 : Equiv (gcSet tA oA.id) tA := (gcSet_equiv tA oA.id).symm
-      show Equiv (if Cfg.default.gc = true then gcSet tA oA.id else tA) (if cfg.gc = true then gcSet tB oB.id else tB)
-      simp only [Cfg.default, if_true]
-      cases cfg.gc
-      · simp only [Bool.false_eq_true, if_false]; exact h1.trans het
-      · simp only [if_true]; exact (h1.trans het).trans (gcSet_equiv tB oB.id)
-    · show MemoOK (if cfg.gc = true then gcSet tB oB.id else tB).memo
-      cases cfg.gc
-      · simp only [Bool.false_eq_true, if_false]; exact hmB
-      · simp only [if_true]; rw [memo_gcSet]; exact hmB
-    · show HdrOK cfg (if cfg.gc = true then gcSet tB oB.id else tB)
-      cases cfg.gc
-      · simp only [Bool.false_eq_true, if_false]; exact hht
-      · simp only [if_true]; exact hdrOK_gcSet _ hht
+    let oA : Obj := { id := sA.next, hdr := headerInit Cfg.default ty heapClass, body := b }
+    let oB : Obj := { id := sB.next, hdr := headerInit cfg ty heapClass, body := b }
+    -- the constructor's guards see the class `alloc_by` stamps, in either build
+    have hsite : sitesFire oB ((ty ++ "_Assign", .self) :: elemSites "_Assign" b) =
+        sitesFire oA ((ty ++ "_Assign", .self) :: elemSites "_Assign" b) :=
+      sitesFire_congr (by simp only [oA, oB, siteClass_self_headerInit]) _
+    rw [hsite]
+    rcases hsf : sitesFire oA ((ty ++ "_Assign", .self) :: elemSites "_Assign" b) with _ | e
+    · rw [hsf] at h; simp only at h ⊢
+      let tA : St := { sA with next := sA.next + 1, heap := oA :: sA.heap, live := (d, oA.id) :: sA.live }
+      let tB : St := { sB with next := sB.next + 1, heap := oB :: sB.heap, live := (d, oB.id) :: sB.live }
+      have het : Equiv tA tB := by
+        refine ⟨by simp [tA, tB, heA.1], by simp [tA, tB, oA, oB, heA.1, heA.2.1], ?_⟩
+        intro p hp
+        simp only [tA, tB, findObj_cons, oA, oB]
+        rw [← heA.1]
+        by_cases hpn : sA.next = p.2
+        · simp [hpn, Obj.proj, headerInit]
+        · have hb : (sA.next == p.2) = false := by simpa using hpn
+          simp only [hb, Bool.false_eq_true, if_false]
+          rcases List.mem_cons.mp hp with hp | hp
+          · exfalso; apply hpn; rw [hp]
+          · exact heA.2.2 p hp
+      have hht : HdrOK cfg tB := by
+        intro p hp o ho
+        simp only [tB, findObj_cons, oB] at ho
+        by_cases hpn : sB.next = p.2
+        · simp only [hpn, beq_self_eq_true, if_true] at ho
+          have := Option.some.inj ho
+          rw [← this]
+          rfl
+        · have hb : (sB.next == p.2) = false := by simpa using hpn
+          simp only [hb, Bool.false_eq_true, if_false] at ho
+          rcases List.mem_cons.mp hp with hp | hp
+          · exfalso; apply hpn; rw [hp]
+          · exact hhB p hp o ho
+      have hout : out = .unit := by
+        have := Outcome.ok.inj h
+        exact this.symm
+      subst hout
+      refine ⟨rfl, ?_, ?_, ?_⟩
+      · -- default registers (and may sweep); cfg may or may not
+        exact ((register_equiv Cfg.default mode tA oA.id).symm.trans het).trans (register_equiv cfg mode tB oB.id)
+      · show MemoOK (register cfg mode tB oB.id).memo
+        rw [memo_register]; exact hmB
+      · exact hdrOK_register cfg mode oB.id hht
+    · rw [hsf] at h; simp only [refuse, Cfg.default, if_true] at h; cases h
   · rw [hall] at h; simp at h
   · rw [hall] at h; simp at h
 
-theorem equiv_free {s t : St} (x i : Nat) (r₁ r₂ : List Nat) (he : Equiv s t) :
-    Equiv { s with heap := s.heap.filter (fun o => !(o.id == i)), reg := r₁, live := s.live.filter (fun p => !(p.1 == x)) }
-          { t with heap := t.heap.filter (fun o => !(o.id == i)), reg := r₂, live := t.live.filter (fun p => !(p.1 == x)) } := by
+theorem equiv_free {s t : St} (x i : Nat) (r₁ r₂ q₁ q₂ : List Nat) (he : Equiv s t) :
+    Equiv { s with heap := s.heap.filter (fun o => !(o.id == i)), reg := r₁, roots := q₁, live := s.live.filter (fun p => !(p.1 == x)) }
+          { t with heap := t.heap.filter (fun o => !(o.id == i)), reg := r₂, roots := q₂, live := t.live.filter (fun p => !(p.1 == x)) } := by
   refine ⟨he.1, by simp only [he.2.1], ?_⟩
   intro p hp
   have hp' : p ∈ s.live := (List.mem_filter.mp hp).1
@@ -493,8 +600,8 @@ theorem equiv_free {s t : St} (x i : Nat) (r₁ r₂ : List Nat) (he : Equiv s t
   · rfl
   · exact he.2.2 p hp'
 
-theorem hdrOK_free {cfg : Cfg} {s : St} (x i : Nat) (r : List Nat) (hh : HdrOK cfg s) :
-    HdrOK cfg { s with heap := s.heap.filter (fun o => !(o.id == i)), reg := r, live := s.live.filter (fun p => !(p.1 == x)) } := by
+theorem hdrOK_free {cfg : Cfg} {s : St} (x i : Nat) (r q : List Nat) (hh : HdrOK cfg s) :
+    HdrOK cfg { s with heap := s.heap.filter (fun o => !(o.id == i)), reg := r, roots := q, live := s.live.filter (fun p => !(p.1 == x)) } := by
   intro p hp o ho
   have hp' : p ∈ s.live := (List.mem_filter.mp hp).1
   simp only [findObj_filter_ne] at ho
@@ -509,10 +616,12 @@ theorem runDel_sim (cfg : Cfg) (x : Nat) {s₁ s₂ : St} {out : Out}
   unfold runDel at h ⊢
   rcases hdis : dispatchGen false Cfg.default s₁ x "New" with ⟨sA, (o₁ | e | _)⟩
   · rw [hdis] at h; simp only at h ⊢
-    obtain ⟨sB, o₂, hd₂, hproj, hsb₁, hsb₂, hmA, hmB, _, _, _⟩ := dispatchGen_sim false cfg he hw₁.1 hw₂ hdis
+    obtain ⟨sB, o₂, hd₂, hproj, hsb₁, hsb₂, hmA, hmB, hlive, hf₁, hf₂⟩ := dispatchGen_sim false cfg he hw₁.1 hw₂ hdis
     rw [hd₂]; simp only
     have heA : Equiv sA sB := equiv_of_sameBut he hsb₁ hsb₂
     have hhB : HdrOK cfg sB := hsb₂.hdrOK hw₂.2
+    have hh₁ := hw₁.2 _ hlive o₁ hf₁
+    have hh₂ := hw₂.2 _ (he.2.1 ▸ hlive) o₂ hf₂
     rcases hdis2 : dispatchGen false Cfg.default sA x "Alloc" with ⟨sA', (o₁' | e | _)⟩
     · rw [hdis2] at h; simp only at h ⊢
       obtain ⟨sB', o₂', hd₂', _, hs1, hs2, _, hmB', _, _, _⟩ := dispatchGen_sim false cfg heA hmA ⟨hmB, hhB⟩ hdis2
@@ -520,11 +629,16 @@ theorem runDel_sim (cfg : Cfg) (x : Nat) {s₁ s₂ : St} {out : Out}
       have heA' : Equiv sA' sB' := equiv_of_sameBut heA hs1 hs2
       have hhB' : HdrOK cfg sB' := hs2.hdrOK hhB
       have hid : o₂.id = o₁.id := (congrArg (fun q => q.1) hproj).symm
-      rw [hid]
-      refine ⟨h, ?_, ?_, ?_⟩
-      · exact equiv_free x o₁.id _ _ heA'
-      · exact hmB'
-      · exact hdrOK_free x o₁.id _ hhB'
+      have hbody : o₂.body = o₁.body := (congrArg (fun q => q.2.2) hproj).symm
+      have hty : o₂.hdr.type = o₁.hdr.type := (congrArg (fun q => q.2.1) hproj).symm
+      rw [hid, hbody, hty, ← sitesFire_of_hdr hh₁ hh₂]
+      rcases hsf : sitesFire o₁ ((o₁.hdr.type ++ "_Del", .self) :: elemSites "_Del" o₁.body ++ [("dealloc", .self)]) with _ | e
+      · rw [hsf] at h; simp only [hsf] at h ⊢
+        refine ⟨h, ?_, ?_, ?_⟩
+        · exact equiv_free x o₁.id _ _ _ _ heA'
+        · exact hmB'
+        · exact hdrOK_free x o₁.id _ _ hhB'
+      · rw [hsf] at h; simp only [refuse, Cfg.default, if_true] at h; cases h
     · rw [hdis2] at h; simp at h
     · rw [hdis2] at h; simp at h
   · rw [hdis] at h; simp at h
@@ -539,9 +653,9 @@ theorem step_sim (cfg : Cfg) (op : Op) {s₁ s₂ : St} {out : Out}
     SimGoal cfg (step Cfg.default op s₁) (step cfg op s₂) out := by
   unfold step at h ⊢
   rw [← view_eq_of_equiv he]
-  rcases hp : plan op s₁.view with c | ⟨d, ty, b, uses⟩ | x | x | _ | o | e | _
+  rcases hp : plan op s₁.view with c | ⟨d, ty, b, uses, mode⟩ | x | x | _ | o | e | _
   · rw [hp] at h; exact runCall_sim cfg c he hw₁ hw₂ h
-  · rw [hp] at h; exact runAlloc_sim cfg d ty b uses he hw₁ hw₂ h
+  · rw [hp] at h; exact runAlloc_sim cfg d ty b uses mode he hw₁ hw₂ h
   · rw [hp] at h; exact runDel_sim cfg x he hw₁ hw₂ h
   · rw [hp] at h; simp only at h ⊢
     refine ⟨h, ⟨he.1, by simp only [he.2.1], ?_⟩, hw₂.1, ?_⟩
